@@ -17,6 +17,8 @@
   (acceptance is NOT independent of the delivery order among causally consistent orders: the two fallbacks of
   `handleUpdateDIDDocument` — latest version, controllers by signing time — read what the node happens to hold) and the
   positive half `future_depends_only_on_accepted_set`.
+  C13: `pubLatest_is_resolve_latest`, `deactivation_commit_agrees_partial` and the seam where C13 and C09's `managerUpdate`
+  model `Manager.Update`'s deactivation test differently (`deactivation_commit_disagrees_on_conflicted_store`).
 -/
 import NutsProofs.Lemmas.ComposeDid
 import NutsProofs.Props.C09
@@ -385,5 +387,108 @@ theorem future_depends_only_on_accepted_set (c : C09.Cfg) (σ : Field → List E
 -- update, a further valid update — is treated identically
 example : outcomes wCfg (run wCfg {} hist₁) [u500, forged, c100] = outcomes wCfg (run wCfg {} hist₂) [u500, forged, c100] ∧
     outcomes wCfg (run wCfg {} hist₁) [u500, forged, c100] = ["ok", "err:sig:key:key-not-found", "ok"] := by decide
+
+
+/-! ### C13: the subject manager's view of the did:nuts store -/
+
+theorem resolve_allow_latest (s : Store) (id : String) :
+    resolve s id (some { allowDeactivated := true }) =
+      (match (s.get id).chain.reverse with | [] => .err "not-found" | p :: _ => .ok p) := by
+  unfold resolve
+  cases (s.get id).chain.reverse with
+  | nil => rfl
+  | cons p ps =>
+    obtain ⟨d, m⟩ := p
+    simp [resolveChain, latestNonDeactivatedRequested, matchesMeta]
+
+/-- **C13's `pubLatest` is C10's `Resolve(id, AllowDeactivated)`** on the abstraction of any store -/
+theorem pubLatest_is_resolve_latest (tok : String → Nat) (name : Nat → String) (s : Store) (n : Nat) :
+    C13.pubLatest (pubOf tok name s) n =
+      (match resolve s (name n) (some { allowDeactivated := true }) with
+       | .ok (d, _) => some (absContent tok d) | _ => none) := by
+  rw [resolve_allow_latest]
+  unfold C13.pubLatest pubOf
+  cases (s.get (name n)).chain.reverse with
+  | nil => rfl
+  | cons p ps => rfl
+
+/-- C13's document-level deactivation test is C10's `isDeactivated` on documents without controller (the documents the
+    subject manager generates) -/
+theorem content_deactivated_eq (tok : String → Nat) (d : Doc) (hc : d.f .controller = []) :
+    (absContent tok d).deactivated = isDeactivated d := by
+  simp [absContent, C13.Content.deactivated, isDeactivated, hc]
+
+/-- **Deactivation commit: C13 agrees with C09's `Manager.Update` when flag = content (`_partial`).**  C13's `commitNuts`
+    refuses a deactivation iff the latest published CONTENT is deactivated (first conjunct); C09's `managerUpdate` (the same
+    Go function: `onDeactivate → Deactivate → Manager.Update`) refuses with `deactivated` when C10's sticky metadata FLAG is
+    set (second conjunct).  Under the extra hypothesis `hflag` — for the latest version of the DID the flag equals the
+    document-level test, which holds without conflicts — a deactivation C13 refuses is refused by `Manager.Update` for that
+    reason, and one `Manager.Update` lets through is published by C13. -/
+theorem deactivation_commit_agrees_partial (c : C09.Cfg) (tok : String → Nat) (name : Nat → String) (s : Store) (n : Nat)
+    (has : String → Bool) (svcOk : Bool) (next : NDoc) (d : Doc) (m : Meta)
+    (hres : resolve s (name n) (some { allowDeactivated := true }) = .ok (d, m)) :
+    (C13.commitNuts (pubOf tok name s) (deactivationOf n) =
+      if (absContent tok d).deactivated then .err "deactivated"
+      else .ok (C13.publish (pubOf tok name s) n C13.Content.empty)) ∧
+    (m.deactivated = true → managerUpdate c s has svcOk (name n) next = .err "mgr:deactivated") ∧
+    (m.deactivated = (absContent tok d).deactivated →
+      (C13.commitNuts (pubOf tok name s) (deactivationOf n) = .err "deactivated" →
+        managerUpdate c s has svcOk (name n) next = .err "mgr:deactivated") ∧
+      (∀ p, managerUpdate c s has svcOk (name n) next = .ok p →
+        C13.commitNuts (pubOf tok name s) (deactivationOf n) = .ok (C13.publish (pubOf tok name s) n C13.Content.empty))) := by
+  have hp := pubLatest_is_resolve_latest tok name s n
+  rw [hres] at hp
+  simp only at hp
+  have hA : C13.commitNuts (pubOf tok name s) (deactivationOf n) =
+      if (absContent tok d).deactivated then .err "deactivated"
+      else .ok (C13.publish (pubOf tok name s) n C13.Content.empty) := by
+    unfold C13.commitNuts deactivationOf
+    simp only [hp]
+  have hB : m.deactivated = true → managerUpdate c s has svcOk (name n) next = .err "mgr:deactivated" := by
+    intro hm
+    unfold managerUpdate
+    simp only [hres, hm, if_true]
+  refine ⟨hA, hB, fun hflag => ⟨fun h => hB ?_, fun p hpk => ?_⟩⟩
+  · rw [hA] at h
+    cases hd : (absContent tok d).deactivated with
+    | true => rw [hflag, hd]
+    | false => rw [hd] at h; simp at h
+  · rw [hA]
+    cases hd : (absContent tok d).deactivated with
+    | false => simp
+    | true =>
+      rw [hB (by rw [hflag, hd])] at hpk
+      cases hpk
+
+/-! #### where the two models part: a conflicted DID -/
+
+/-- self-controlled `Dd` without controller field -/
+def s110 : Delivery := (createTx 110 "d", some (docOf "d" ["d"] ["d"]))
+/-- `Dd` is deactivated … -/
+def s211 : Delivery := (updateTx 211 [110] "did:nuts:Dd" "d" 20, some (docOf "d" [] []))
+/-- … while a concurrent update (another node holding the key, or a race) names the same previous version -/
+def s212 : Delivery := (updateTx 212 [110] "did:nuts:Dd" "d" 30, some (docOf "d" ["d"] ["d"]))
+
+/-- **Seam C13 / (C09 ∘ C10): the models disagree on a conflicted DID.**  After the reachable history
+    create, deactivate, concurrent update (all three accepted by C09) C10's latest version of `Dd` is the MERGE of the
+    deactivation and the update: its content has a capabilityInvocation key (not deactivated, `onUpdate`'s test), its
+    metadata flag is deactivated (sticky; `Manager.Update`'s test).  C09's `managerUpdate` refuses the deactivation with
+    `deactivated` — C13's `commitNuts`, which sees only contents (`pub`), publishes it.  C13's `pub : Nat → List Content`
+    cannot express the flag: C13's theorems hold for the node's own linear publications, not for every C10-reachable store. -/
+theorem deactivation_commit_disagrees_on_conflicted_store :
+    outcomes wCfg {} [s110, s211, s212] = ["ok", "ok", "ok"] ∧
+    (match resolve (run wCfg {} [s110, s211, s212]) "did:nuts:Dd" (some { allowDeactivated := true }) with
+      | .ok (d, m) => (isDeactivated d, m.deactivated, m.sourceTx) | _ => (true, false, [])) = (false, true, [212, 211]) ∧
+    (match managerUpdate wCfg (run wCfg {} [s110, s211, s212]) (fun _ => true) true "did:nuts:Dd" (docOf "d" [] []) with
+      | .err e => e | _ => "") = "mgr:deactivated" ∧
+    (match C13.commitNuts (pubOf (fun _ => 7) (fun _ => "did:nuts:Dd") (run wCfg {} [s110, s211, s212])) (deactivationOf 0) with
+      | .ok pub => (pub 0).length | _ => 0) = 4 := by
+  refine ⟨by decide, by decide, by decide, by decide⟩
+
+-- `deactivation_commit_agrees_partial` is not vacuous: without a conflict flag and content agree (active / deactivated)
+example : (match resolve (run wCfg {} [s110]) "did:nuts:Dd" (some { allowDeactivated := true }) with
+    | .ok (d, m) => (m.deactivated, (absContent (fun _ => 7) d).deactivated) | _ => (true, false)) = (false, false) ∧
+  (match resolve (run wCfg {} [s110, s211]) "did:nuts:Dd" (some { allowDeactivated := true }) with
+    | .ok (d, m) => (m.deactivated, (absContent (fun _ => 7) d).deactivated) | _ => (true, false)) = (true, true) := by decide
 
 end Nuts.Compose.Did.Props
